@@ -411,3 +411,139 @@ package consensus
 //@   ensures @K1-revision-unlock-hash result == nil && 0 <= k && k < len(txn.FileContractRevisions) ==> rev.UnlockConditions.UnlockHash() == par.0.FileContract.UnlockHash
 //@   ensures @B5-revision-sums result == nil && 0 <= k && k < len(txn.FileContractRevisions) ==> sumSCO(rev.FileContract.ValidProofOutputs, len(rev.FileContract.ValidProofOutputs)) == sumSCO(par.0.FileContract.ValidProofOutputs, len(par.0.FileContract.ValidProofOutputs)) && sumSCO(rev.FileContract.MissedProofOutputs, len(rev.FileContract.MissedProofOutputs)) == sumSCO(par.0.FileContract.MissedProofOutputs, len(par.0.FileContract.MissedProofOutputs))
 //@   ensures @X1-proofs-exclusive result == nil && len(txn.StorageProofs) > 0 ==> len(txn.SiacoinOutputs) == 0 && len(txn.SiafundOutputs) == 0 && len(txn.FileContracts) == 0 && len(txn.FileContractRevisions) == 0
+
+// ------------------------------------------------------------ validation.go: v2 siacoins
+
+// supply bound for accumulator-verified elements (T10 / Inv_supply): assumed on the abstract
+// membership predicates.
+//@ func (*ElementAccumulator).containsUnspentSiacoinElement
+//@   trusted
+//@   ensures result ==> types.u128(sce.SiacoinOutput.Value) < EB
+//@ func (*ElementAccumulator).containsUnspentSiafundElement
+//@   trusted
+//@   ensures result ==> sfe.SiafundOutput.Value <= 10000
+
+//@ spec rec sumV2Parents(ins []types.V2SiacoinInput, n int) int = n <= 0 ? 0 : sumV2Parents(ins, n-1) + types.u128(ins[n-1].Parent.SiacoinOutput.Value)
+//@ spec fcCost(s State, fc types.V2FileContract) int = types.u128(fc.RenterOutput.Value) + types.u128(fc.HostOutput.Value) + tax(fc)
+//@ spec rec sumV2FC(s State, fcs []types.V2FileContract, n int) int = n <= 0 ? 0 : sumV2FC(s, fcs, n-1) + fcCost(s, fcs[n-1])
+//@ spec rec sumRollover(rs []types.V2FileContractResolution, n int) int = n <= 0 ? 0 : sumRollover(rs, n-1) + (isa(rs[n-1].Resolution, V2FileContractRenewal) ? types.u128(asa(rs[n-1].Resolution, V2FileContractRenewal).RenterRollover) + types.u128(asa(rs[n-1].Resolution, V2FileContractRenewal).HostRollover) : 0)
+//@ spec rec sumRenewalCost(s State, rs []types.V2FileContractResolution, n int) int = n <= 0 ? 0 : sumRenewalCost(s, rs, n-1) + (isa(rs[n-1].Resolution, V2FileContractRenewal) ? fcCost(s, asa(rs[n-1].Resolution, V2FileContractRenewal).NewContract) : 0)
+
+// ephemeral (created in this block) siacoin parent: clause E1
+//@ spec ephSC(ms MidState, sci types.V2SiacoinInput) bool = has(ms.elements, sci.Parent.ID) && ms.elements[sci.Parent.ID] < len(ms.sces) && ms.sces[ms.elements[sci.Parent.ID]].Created && (cheight(ms.base) >= ms.base.Network.HardforkV2.EphemeralOutputHeight ==> sci.Parent.ID == ms.sces[ms.elements[sci.Parent.ID]].SiacoinElement.ID && sci.Parent.SiacoinOutput == ms.sces[ms.elements[sci.Parent.ID]].SiacoinElement.SiacoinOutput && sci.Parent.MaturityHeight == ms.sces[ms.elements[sci.Parent.ID]].SiacoinElement.MaturityHeight)
+
+//@ func validateV2Siacoins
+//@   prop C08 C02 C03 C01 C04 C10
+//@   requires ms.base.Network != nil && msWF(*ms) && len(txn.SiacoinInputs) < NB
+//@   requires forall j in 0..len(ms.sces) :: types.u128(ms.sces[j].SiacoinElement.SiacoinOutput.Value) < EB
+//@   requires cheight(ms.base) >= ms.base.Network.HardforkV2.EphemeralOutputHeight
+//@   requires forall i in 0..len(txn.SiacoinOutputs)+1 :: sumSCO(txn.SiacoinOutputs, i) < types.M128
+//@   requires forall i in 0..len(txn.FileContracts) :: types.u128(txn.FileContracts[i].RenterOutput.Value) + types.u128(txn.FileContracts[i].HostOutput.Value) < types.M128
+//@   requires forall i in 0..len(txn.FileContracts)+1 :: sumSCO(txn.SiacoinOutputs, len(txn.SiacoinOutputs)) + sumV2FC(ms.base, txn.FileContracts, i) < types.M128
+//@   requires forall i in 0..len(txn.FileContractResolutions) :: isa(txn.FileContractResolutions[i].Resolution, V2FileContractRenewal) ==> types.u128(asa(txn.FileContractResolutions[i].Resolution, V2FileContractRenewal).NewContract.RenterOutput.Value) + types.u128(asa(txn.FileContractResolutions[i].Resolution, V2FileContractRenewal).NewContract.HostOutput.Value) < types.M128
+//@   requires forall i in 0..len(txn.FileContractResolutions)+1 :: sumSCO(txn.SiacoinOutputs, len(txn.SiacoinOutputs)) + sumV2FC(ms.base, txn.FileContracts, len(txn.FileContracts)) + sumRenewalCost(ms.base, txn.FileContractResolutions, i) + types.u128(txn.MinerFee) < types.M128
+//@   requires forall i in 0..len(txn.FileContractResolutions)+1 :: sumRollover(txn.FileContractResolutions, i) < EB
+//@   ghost k int
+//@   ghost l int
+//@   let in = txn.SiacoinInputs[k]
+//@   invariant loop#1 @inputs-checked 0 <= k && k < $n ==> !has(ms.spends, txn.SiacoinInputs[k].Parent.ID) && has(spent, txn.SiacoinInputs[k].Parent.ID) && txn.SiacoinInputs[k].Parent.MaturityHeight <= cheight(ms.base) && (txn.SiacoinInputs[k].Parent.StateElement.LeafIndex == types.UnassignedLeafIndex ? ephSC(*ms, txn.SiacoinInputs[k]) : ms.base.Elements.containsUnspentSiacoinElement(txn.SiacoinInputs[k].Parent.Share())) && txn.SiacoinInputs[k].SatisfiedPolicy.Policy.Address() == txn.SiacoinInputs[k].Parent.SiacoinOutput.Address && txn.SiacoinInputs[k].SatisfiedPolicy.Policy.Verify(ms.base.Index.Height, ms.base.medianTimestamp(), ms.base.InputSigHash(txn), txn.SiacoinInputs[k].SatisfiedPolicy.Signatures, txn.SiacoinInputs[k].SatisfiedPolicy.Preimages) == nil
+//@   invariant loop#1 @distinct 0 <= k && k < l && l < $n ==> txn.SiacoinInputs[k].Parent.ID != txn.SiacoinInputs[l].Parent.ID
+//@   invariant loop#1 @bounded forall j in 0..$n :: types.u128(txn.SiacoinInputs[j].Parent.SiacoinOutput.Value) < EB
+//@   invariant loop#2 @in-sum types.u128(inputSum) == sumV2Parents(txn.SiacoinInputs, $n) && types.u128(inputSum) <= $n * EB
+//@   invariant loop#3 @out-sum types.u128(outputSum) == sumSCO(txn.SiacoinOutputs, $n) && types.u128(inputSum) == sumV2Parents(txn.SiacoinInputs, len(txn.SiacoinInputs)) && types.u128(inputSum) <= len(txn.SiacoinInputs) * EB
+//@   invariant loop#3 @no-overflow $n < len(txn.SiacoinOutputs) ==> sumSCO(txn.SiacoinOutputs, $n + 1) < types.M128
+//@   invariant loop#3 @nonzero 0 <= k && k < $n ==> types.u128(txn.SiacoinOutputs[k].Value) != 0
+//@   invariant loop#4 @out-sum types.u128(outputSum) == sumSCO(txn.SiacoinOutputs, len(txn.SiacoinOutputs)) + sumV2FC(ms.base, txn.FileContracts, $n) && types.u128(inputSum) == sumV2Parents(txn.SiacoinInputs, len(txn.SiacoinInputs)) && types.u128(inputSum) <= len(txn.SiacoinInputs) * EB
+//@   invariant loop#4 @no-overflow $n < len(txn.FileContracts) ==> sumSCO(txn.SiacoinOutputs, len(txn.SiacoinOutputs)) + sumV2FC(ms.base, txn.FileContracts, $n + 1) < types.M128
+//@   invariant loop#4 @nonzero 0 <= k && k < len(txn.SiacoinOutputs) ==> types.u128(txn.SiacoinOutputs[k].Value) != 0
+//@   invariant loop#5 @out-sum types.u128(outputSum) == sumSCO(txn.SiacoinOutputs, len(txn.SiacoinOutputs)) + sumV2FC(ms.base, txn.FileContracts, len(txn.FileContracts)) + sumRenewalCost(ms.base, txn.FileContractResolutions, $n)
+//@   invariant loop#5 @in-sum types.u128(inputSum) == sumV2Parents(txn.SiacoinInputs, len(txn.SiacoinInputs)) + sumRollover(txn.FileContractResolutions, $n) && sumV2Parents(txn.SiacoinInputs, len(txn.SiacoinInputs)) <= len(txn.SiacoinInputs) * EB
+//@   invariant loop#5 @no-overflow $n < len(txn.FileContractResolutions) ==> sumSCO(txn.SiacoinOutputs, len(txn.SiacoinOutputs)) + sumV2FC(ms.base, txn.FileContracts, len(txn.FileContracts)) + sumRenewalCost(ms.base, txn.FileContractResolutions, $n + 1) + types.u128(txn.MinerFee) < types.M128 && sumRollover(txn.FileContractResolutions, $n + 1) < EB
+//@   invariant loop#5 @nonzero 0 <= k && k < len(txn.SiacoinOutputs) ==> types.u128(txn.SiacoinOutputs[k].Value) != 0
+//@   ensures @U6-unspent result == nil && 0 <= k && k < len(txn.SiacoinInputs) ==> !has(ms.spends, in.Parent.ID)
+//@   ensures @U7-distinct result == nil && 0 <= k && k < l && l < len(txn.SiacoinInputs) ==> txn.SiacoinInputs[k].Parent.ID != txn.SiacoinInputs[l].Parent.ID
+//@   ensures @M2-maturity result == nil && 0 <= k && k < len(txn.SiacoinInputs) ==> in.Parent.MaturityHeight <= cheight(ms.base)
+//@   ensures @A4-membership result == nil && 0 <= k && k < len(txn.SiacoinInputs) ==> (in.Parent.StateElement.LeafIndex == types.UnassignedLeafIndex ? ephSC(*ms, in) : ms.base.Elements.containsUnspentSiacoinElement(in.Parent.Share()))
+//@   ensures @K3-policy result == nil && 0 <= k && k < len(txn.SiacoinInputs) ==> in.SatisfiedPolicy.Policy.Address() == in.Parent.SiacoinOutput.Address && in.SatisfiedPolicy.Policy.Verify(ms.base.Index.Height, ms.base.medianTimestamp(), ms.base.InputSigHash(txn), in.SatisfiedPolicy.Signatures, in.SatisfiedPolicy.Preimages) == nil
+//@   ensures @Z2-nonzero result == nil && 0 <= k && k < len(txn.SiacoinOutputs) ==> types.u128(txn.SiacoinOutputs[k].Value) != 0
+//@   ensures @B6-balance result == nil ==> sumV2Parents(txn.SiacoinInputs, len(txn.SiacoinInputs)) + sumRollover(txn.FileContractResolutions, len(txn.FileContractResolutions)) == sumSCO(txn.SiacoinOutputs, len(txn.SiacoinOutputs)) + sumV2FC(ms.base, txn.FileContracts, len(txn.FileContracts)) + sumRenewalCost(ms.base, txn.FileContractResolutions, len(txn.FileContractResolutions)) + types.u128(txn.MinerFee)
+
+// ------------------------------------------------------------ validation.go: v2 siafunds
+
+//@ spec rec sumV2SFParents(ins []types.V2SiafundInput, n int) int = n <= 0 ? 0 : sumV2SFParents(ins, n-1) + ins[n-1].Parent.SiafundOutput.Value
+//@ spec ephSF(ms MidState, sfi types.V2SiafundInput) bool = has(ms.elements, sfi.Parent.ID) && ms.elements[sfi.Parent.ID] < len(ms.sfes) && ms.sfes[ms.elements[sfi.Parent.ID]].Created && cheight(ms.base) < ms.base.Network.HardforkV2.EphemeralOutputHeight
+
+//@ func validateV2Siafunds
+//@   prop C08 C02 C03 C01 C04 C10
+//@   requires ms.base.Network != nil && msWF(*ms) && len(txn.SiafundInputs) < NB && len(txn.SiafundOutputs) < NB
+//@   requires cheight(ms.base) >= ms.base.Network.HardforkV2.EphemeralOutputHeight
+//@   requires forall j in 0..len(txn.SiafundOutputs) :: txn.SiafundOutputs[j].Value <= 10000
+//@   ghost k int
+//@   ghost l int
+//@   let in = txn.SiafundInputs[k]
+//@   invariant loop#1 @inputs-checked 0 <= k && k < $n ==> !has(ms.spends, txn.SiafundInputs[k].Parent.ID) && has(spent, txn.SiafundInputs[k].Parent.ID) && txn.SiafundInputs[k].Parent.StateElement.LeafIndex != types.UnassignedLeafIndex && ms.base.Elements.containsUnspentSiafundElement(txn.SiafundInputs[k].Parent.Share()) && txn.SiafundInputs[k].SatisfiedPolicy.Policy.Address() == txn.SiafundInputs[k].Parent.SiafundOutput.Address && txn.SiafundInputs[k].SatisfiedPolicy.Policy.Verify(ms.base.Index.Height, ms.base.medianTimestamp(), ms.base.InputSigHash(txn), txn.SiafundInputs[k].SatisfiedPolicy.Signatures, txn.SiafundInputs[k].SatisfiedPolicy.Preimages) == nil
+//@   invariant loop#1 @distinct 0 <= k && k < l && l < $n ==> txn.SiafundInputs[k].Parent.ID != txn.SiafundInputs[l].Parent.ID
+//@   invariant loop#1 @bounded forall j in 0..$n :: txn.SiafundInputs[j].Parent.SiafundOutput.Value <= 10000
+//@   invariant loop#2 @in-sum inputSum == sumV2SFParents(txn.SiafundInputs, $n) && inputSum <= $n * 10000
+//@   invariant loop#3 @out-sum outputSum == sumSFO(txn.SiafundOutputs, $n) && outputSum <= $n * 10000 && inputSum == sumV2SFParents(txn.SiafundInputs, len(txn.SiafundInputs))
+//@   invariant loop#3 @nonzero 0 <= k && k < $n ==> txn.SiafundOutputs[k].Value != 0
+//@   ensures @U6-unspent result == nil && 0 <= k && k < len(txn.SiafundInputs) ==> !has(ms.spends, in.Parent.ID)
+//@   ensures @U7-distinct result == nil && 0 <= k && k < l && l < len(txn.SiafundInputs) ==> txn.SiafundInputs[k].Parent.ID != txn.SiafundInputs[l].Parent.ID
+//@   ensures @A5-membership result == nil && 0 <= k && k < len(txn.SiafundInputs) ==> in.Parent.StateElement.LeafIndex != types.UnassignedLeafIndex && ms.base.Elements.containsUnspentSiafundElement(in.Parent.Share())
+//@   ensures @K3-policy result == nil && 0 <= k && k < len(txn.SiafundInputs) ==> in.SatisfiedPolicy.Policy.Address() == in.Parent.SiafundOutput.Address && in.SatisfiedPolicy.Policy.Verify(ms.base.Index.Height, ms.base.medianTimestamp(), ms.base.InputSigHash(txn), in.SatisfiedPolicy.Signatures, in.SatisfiedPolicy.Preimages) == nil
+//@   ensures @Z2-nonzero result == nil && 0 <= k && k < len(txn.SiafundOutputs) ==> txn.SiafundOutputs[k].Value != 0
+//@   ensures @B7-count-preserved result == nil ==> sumV2SFParents(txn.SiafundInputs, len(txn.SiafundInputs)) == sumSFO(txn.SiafundOutputs, len(txn.SiafundOutputs))
+
+//@ func validateAttestations
+//@   prop C03 C10
+//@   ghost k int
+//@   invariant loop#1 @checked 0 <= k && k < $n ==> len(txn.Attestations[k].Key) != 0 && txn.Attestations[k].PublicKey.VerifyHash(ms.base.AttestationSigHash(txn.Attestations[k]), txn.Attestations[k].Signature)
+//@   ensures @AT-signed result == nil && 0 <= k && k < len(txn.Attestations) ==> len(txn.Attestations[k].Key) != 0 && txn.Attestations[k].PublicKey.VerifyHash(ms.base.AttestationSigHash(txn.Attestations[k]), txn.Attestations[k].Signature)
+
+//@ func validateFoundationUpdate
+//@   prop C03 C10
+//@   invariant loop#1 @none-yet forall j in 0..$n :: txn.SiacoinInputs[j].Parent.SiacoinOutput.Address != ms.base.FoundationManagementAddress
+//@   ensures @FU-authorized result == nil && txn.NewFoundationAddress != nil ==> exists j in 0..len(txn.SiacoinInputs) :: txn.SiacoinInputs[j].Parent.SiacoinOutput.Address == ms.base.FoundationManagementAddress
+
+// ------------------------------------------------------------ validation.go: v2 file contracts
+
+//@ func (*ElementAccumulator).containsUnresolvedV2FileContractElement
+//@   trusted
+//@   ensures result ==> types.u128(fce.V2FileContract.RenterOutput.Value) + types.u128(fce.V2FileContract.HostOutput.Value) < EB
+
+// the latest revision of a contract within the block, else the parent as carried by the transaction
+//@ spec curRev(ms MidState, fce types.V2FileContractElement) types.V2FileContract = (has(ms.elements, fce.ID) && ms.v2fces[ms.elements[fce.ID]].Revision != nil) ? deref(ms.v2fces[ms.elements[fce.ID]].Revision) : fce.V2FileContract
+//@ spec sigsOK(s State, fc types.V2FileContract, renter types.PublicKey, host types.PublicKey) bool = renter.VerifyHash(s.ContractSigHash(fc), fc.RenterSignature) && host.VerifyHash(s.ContractSigHash(fc), fc.HostSignature)
+//@ spec parentOK(ms MidState, fce types.V2FileContractElement) bool = !has(ms.spends, fce.ID) && ms.base.Elements.containsUnresolvedV2FileContractElement(fce.Share())
+
+//@ func validateV2FileContracts
+//@   prop C07 C08 C02 C03 C04 C10
+//@   requires ms.base.Network != nil && msWF(*ms)
+//@   requires cheight(ms.base) >= ms.base.Network.HardforkV2.EphemeralOutputHeight
+//@   requires forall id types.ElementID :: has(ms.elements, id) ==> ms.elements[id] < len(ms.v2fces)
+//@   requires forall j in 0..len(ms.v2fces) :: ms.v2fces[j].Revision != nil ==> types.u128(deref(ms.v2fces[j].Revision).RenterOutput.Value) + types.u128(deref(ms.v2fces[j].Revision).HostOutput.Value) < EB
+//@   requires forall i in 0..len(txn.FileContracts) :: types.u128(txn.FileContracts[i].RenterOutput.Value) + types.u128(txn.FileContracts[i].HostOutput.Value) < types.M128
+//@   requires forall i in 0..len(txn.FileContractRevisions) :: types.u128(txn.FileContractRevisions[i].Revision.RenterOutput.Value) + types.u128(txn.FileContractRevisions[i].Revision.HostOutput.Value) < types.M128
+//@   requires forall i in 0..len(txn.FileContractResolutions) :: isa(txn.FileContractResolutions[i].Resolution, V2FileContractRenewal) ==> types.u128(asa(txn.FileContractResolutions[i].Resolution, V2FileContractRenewal).FinalRenterOutput.Value) + types.u128(asa(txn.FileContractResolutions[i].Resolution, V2FileContractRenewal).RenterRollover) + types.u128(asa(txn.FileContractResolutions[i].Resolution, V2FileContractRenewal).FinalHostOutput.Value) + types.u128(asa(txn.FileContractResolutions[i].Resolution, V2FileContractRenewal).HostRollover) < types.M128 && types.u128(asa(txn.FileContractResolutions[i].Resolution, V2FileContractRenewal).NewContract.RenterOutput.Value) + types.u128(asa(txn.FileContractResolutions[i].Resolution, V2FileContractRenewal).NewContract.HostOutput.Value) + tax(asa(txn.FileContractResolutions[i].Resolution, V2FileContractRenewal).NewContract) < types.M128
+//@   ghost k int
+//@   ghost l int
+//@   let fc = txn.FileContracts[k]
+//@   let fcr = txn.FileContractRevisions[k]
+//@   let res = txn.FileContractResolutions[k]
+//@   invariant loop#1 @contracts 0 <= k && k < $n ==> CVContractValues(txn.FileContracts[k]) && txn.FileContracts[k].ProofHeight >= cheight(ms.base) && sigsOK(ms.base, txn.FileContracts[k], txn.FileContracts[k].RenterPublicKey, txn.FileContracts[k].HostPublicKey)
+//@   invariant loop#2 @contracts-done 0 <= k && k < len(txn.FileContracts) ==> CVContractValues(txn.FileContracts[k]) && txn.FileContracts[k].ProofHeight >= cheight(ms.base) && sigsOK(ms.base, txn.FileContracts[k], txn.FileContracts[k].RenterPublicKey, txn.FileContracts[k].HostPublicKey)
+//@   invariant loop#2 @revisions 0 <= k && k < $n ==> parentOK(*ms, txn.FileContractRevisions[k].Parent) && has(revised, txn.FileContractRevisions[k].Parent.ID) && txn.FileContractRevisions[k].Parent.V2FileContract.ProofHeight >= cheight(ms.base) && curRev(*ms, txn.FileContractRevisions[k].Parent).ProofHeight >= cheight(ms.base) && CVRevisionValues(curRev(*ms, txn.FileContractRevisions[k].Parent), txn.FileContractRevisions[k].Revision) && txn.FileContractRevisions[k].Revision.ProofHeight >= cheight(ms.base) && sigsOK(ms.base, txn.FileContractRevisions[k].Revision, curRev(*ms, txn.FileContractRevisions[k].Parent).RenterPublicKey, curRev(*ms, txn.FileContractRevisions[k].Parent).HostPublicKey)
+//@   invariant loop#2 @distinct 0 <= k && k < l && l < $n ==> txn.FileContractRevisions[k].Parent.ID != txn.FileContractRevisions[l].Parent.ID
+//@   invariant loop#3 @resolutions 0 <= k && k < $n ==> parentOK(*ms, txn.FileContractResolutions[k].Parent) && !has(revised, txn.FileContractResolutions[k].Parent.ID) && has(resolved, txn.FileContractResolutions[k].Parent.ID) && (isa(txn.FileContractResolutions[k].Resolution, V2FileContractRenewal) ==> CVRenewalValues(txn.FileContractResolutions[k].Parent.V2FileContract, asa(txn.FileContractResolutions[k].Resolution, V2FileContractRenewal)) && asa(txn.FileContractResolutions[k].Resolution, V2FileContractRenewal).NewContract.ProofHeight >= cheight(ms.base) && sigsOK(ms.base, asa(txn.FileContractResolutions[k].Resolution, V2FileContractRenewal).NewContract, asa(txn.FileContractResolutions[k].Resolution, V2FileContractRenewal).NewContract.RenterPublicKey, asa(txn.FileContractResolutions[k].Resolution, V2FileContractRenewal).NewContract.HostPublicKey) && txn.FileContractResolutions[k].Parent.V2FileContract.RenterPublicKey.VerifyHash(ms.base.RenewalSigHash(asa(txn.FileContractResolutions[k].Resolution, V2FileContractRenewal)), asa(txn.FileContractResolutions[k].Resolution, V2FileContractRenewal).RenterSignature) && txn.FileContractResolutions[k].Parent.V2FileContract.HostPublicKey.VerifyHash(ms.base.RenewalSigHash(asa(txn.FileContractResolutions[k].Resolution, V2FileContractRenewal)), asa(txn.FileContractResolutions[k].Resolution, V2FileContractRenewal).HostSignature)) && (isa(txn.FileContractResolutions[k].Resolution, V2StorageProof) ==> cheight(ms.base) >= txn.FileContractResolutions[k].Parent.V2FileContract.ProofHeight && asa(txn.FileContractResolutions[k].Resolution, V2StorageProof).ProofIndex.ChainIndex.Height == txn.FileContractResolutions[k].Parent.V2FileContract.ProofHeight && ms.base.Elements.containsChainIndex(asa(txn.FileContractResolutions[k].Resolution, V2StorageProof).ProofIndex.Share())) && (isa(txn.FileContractResolutions[k].Resolution, V2FileContractExpiration) ==> cheight(ms.base) > txn.FileContractResolutions[k].Parent.V2FileContract.ExpirationHeight)
+//@   invariant loop#3 @distinct 0 <= k && k < l && l < $n ==> txn.FileContractResolutions[k].Parent.ID != txn.FileContractResolutions[l].Parent.ID
+//@   invariant loop#3 @not-revised 0 <= l && l < $n ==> !has(revised, txn.FileContractResolutions[l].Parent.ID)
+//@   invariant loop#3 @earlier-loops (0 <= k && k < len(txn.FileContracts) ==> CVContractValues(txn.FileContracts[k]) && txn.FileContracts[k].ProofHeight >= cheight(ms.base) && sigsOK(ms.base, txn.FileContracts[k], txn.FileContracts[k].RenterPublicKey, txn.FileContracts[k].HostPublicKey)) && (0 <= k && k < len(txn.FileContractRevisions) ==> parentOK(*ms, txn.FileContractRevisions[k].Parent) && has(revised, txn.FileContractRevisions[k].Parent.ID) && txn.FileContractRevisions[k].Parent.V2FileContract.ProofHeight >= cheight(ms.base) && curRev(*ms, txn.FileContractRevisions[k].Parent).ProofHeight >= cheight(ms.base) && CVRevisionValues(curRev(*ms, txn.FileContractRevisions[k].Parent), txn.FileContractRevisions[k].Revision) && txn.FileContractRevisions[k].Revision.ProofHeight >= cheight(ms.base) && sigsOK(ms.base, txn.FileContractRevisions[k].Revision, curRev(*ms, txn.FileContractRevisions[k].Parent).RenterPublicKey, curRev(*ms, txn.FileContractRevisions[k].Parent).HostPublicKey)) && (0 <= k && k < l && l < len(txn.FileContractRevisions) ==> txn.FileContractRevisions[k].Parent.ID != txn.FileContractRevisions[l].Parent.ID)
+//@   ensures @R-resolution-rules result == nil && 0 <= k && k < len(txn.FileContractResolutions) ==> parentOK(*ms, txn.FileContractResolutions[k].Parent) && (isa(txn.FileContractResolutions[k].Resolution, V2FileContractRenewal) ==> CVRenewalValues(txn.FileContractResolutions[k].Parent.V2FileContract, asa(txn.FileContractResolutions[k].Resolution, V2FileContractRenewal)) && asa(txn.FileContractResolutions[k].Resolution, V2FileContractRenewal).NewContract.ProofHeight >= cheight(ms.base) && sigsOK(ms.base, asa(txn.FileContractResolutions[k].Resolution, V2FileContractRenewal).NewContract, asa(txn.FileContractResolutions[k].Resolution, V2FileContractRenewal).NewContract.RenterPublicKey, asa(txn.FileContractResolutions[k].Resolution, V2FileContractRenewal).NewContract.HostPublicKey) && txn.FileContractResolutions[k].Parent.V2FileContract.RenterPublicKey.VerifyHash(ms.base.RenewalSigHash(asa(txn.FileContractResolutions[k].Resolution, V2FileContractRenewal)), asa(txn.FileContractResolutions[k].Resolution, V2FileContractRenewal).RenterSignature) && txn.FileContractResolutions[k].Parent.V2FileContract.HostPublicKey.VerifyHash(ms.base.RenewalSigHash(asa(txn.FileContractResolutions[k].Resolution, V2FileContractRenewal)), asa(txn.FileContractResolutions[k].Resolution, V2FileContractRenewal).HostSignature)) && (isa(txn.FileContractResolutions[k].Resolution, V2StorageProof) ==> cheight(ms.base) >= txn.FileContractResolutions[k].Parent.V2FileContract.ProofHeight && asa(txn.FileContractResolutions[k].Resolution, V2StorageProof).ProofIndex.ChainIndex.Height == txn.FileContractResolutions[k].Parent.V2FileContract.ProofHeight && ms.base.Elements.containsChainIndex(asa(txn.FileContractResolutions[k].Resolution, V2StorageProof).ProofIndex.Share())) && (isa(txn.FileContractResolutions[k].Resolution, V2FileContractExpiration) ==> cheight(ms.base) > txn.FileContractResolutions[k].Parent.V2FileContract.ExpirationHeight)
+//@   ensures @U-resolved-once result == nil && 0 <= k && k < l && l < len(txn.FileContractResolutions) ==> txn.FileContractResolutions[k].Parent.ID != txn.FileContractResolutions[l].Parent.ID
+//@   ensures @U-not-revised-and-resolved result == nil && 0 <= k && k < len(txn.FileContractRevisions) && 0 <= l && l < len(txn.FileContractResolutions) ==> txn.FileContractRevisions[k].Parent.ID != txn.FileContractResolutions[l].Parent.ID
+//@   ensures @F4-contract result == nil && 0 <= k && k < len(txn.FileContracts) ==> CVContractValues(fc) && fc.ProofHeight >= cheight(ms.base)
+//@   ensures @K4-contract-signed result == nil && 0 <= k && k < len(txn.FileContracts) ==> sigsOK(ms.base, fc, fc.RenterPublicKey, fc.HostPublicKey)
+//@   ensures @P1-revision-parent result == nil && 0 <= k && k < len(txn.FileContractRevisions) ==> parentOK(*ms, fcr.Parent)
+//@   ensures @U-revised-once result == nil && 0 <= k && k < l && l < len(txn.FileContractRevisions) ==> txn.FileContractRevisions[k].Parent.ID != txn.FileContractRevisions[l].Parent.ID
+//@   ensures @F5-revision-rules result == nil && 0 <= k && k < len(txn.FileContractRevisions) ==> fcr.Parent.V2FileContract.ProofHeight >= cheight(ms.base) && curRev(*ms, fcr.Parent).ProofHeight >= cheight(ms.base) && CVRevisionValues(curRev(*ms, fcr.Parent), fcr.Revision) && fcr.Revision.ProofHeight >= cheight(ms.base)
+//@   ensures @K5-revision-signed-by-current-keys result == nil && 0 <= k && k < len(txn.FileContractRevisions) ==> sigsOK(ms.base, fcr.Revision, curRev(*ms, fcr.Parent).RenterPublicKey, curRev(*ms, fcr.Parent).HostPublicKey)
